@@ -5,6 +5,8 @@ from common import close, rng
 import estgen
 
 LEAN_MODULE = 'PGM.Properties.C13'
+LEAN_EXTRA = ['PGM.Properties.C13G']
+TRANSLATORS = ('py2est',)     # __init__, fix_measurements, estimate, _setup and the solver heads of inference.py -> Generated/EstimateG.lean, identified with Model/Engine.lean
 TRUSTED = ['Lean 4.33 kernel', 'axioms: propext, Classical.choice, Quot.sound',
            'the engine state machine PGM/Model/Engine.lean (which fields estimate reads and writes) tied to inference.py by this run: bit-for-bit comparison of a reused engine with fresh engines, aliasing audit with numpy.shares_memory, byte hashes of caller arrays',
            'Python aliasing / in-place semantics are observed, not modelled (no heap model)']
